@@ -267,6 +267,12 @@ theorem step_idleBound (s : State) (op : Op) (h : IdleBound s) : IdleBound (step
     simp only [step]; split
     · exact idleBound_of_eq h (by simp) (by simp)
     · exact h
+  | connFail c =>
+    simp only [step]; split
+    · split
+      · exact idleBound_of_eq h (by simp) (by simp)
+      · exact h
+    · exact h
   | run => exact runAll_idleBound _ _ h
   | tick ms => exact idleBound_of_eq h rfl rfl
   | mark => exact h
@@ -408,6 +414,7 @@ theorem step_cfg (s : State) (op : Op) : (step s op).1.cfg = s.cfg := by
   | finish r => simp only [step]; split <;> simp
   | connReady c => simp only [step]; split <;> simp
   | connClose c => simp only [step]; split <;> simp
+  | connFail c => simp only [step]; split <;> (try split) <;> simp
   | run => exact runAll_cfg _ _
   | tick ms => rfl
   | mark => rfl
